@@ -221,7 +221,26 @@ var c11Vocab = strings.Fields("SELECT select FROM from WHERE where GROUP BY grou
 	"'5s' '1h' 'abc' '' 'x'' \"d\" 'LIMIT 5' 'ts' 'ms' 'ss' '%a%' '5x' '-5s' true false nil")
 
 func c11GenInput(r *rand.Rand, corpus []string) (string, string) {
-	switch k := r.Intn(22); {
+	switch k := r.Intn(24); {
+	case k >= 22:
+		// a statement cut off right after a word, followed by a lone opening quote or bracket (somebody still typing)
+		s := pick(r, corpus)
+		if r.Intn(2) == 0 {
+			s = pick(r, []string{
+				"SELECT * FROM s MATCH_RECOGNIZE (PARTITION BY `dev` ORDER BY `ts` MEASURES FIRST(A.v) AS `fv`, LAST(B.v) AS lv ONE ROW PER MATCH AFTER MATCH SKIP TO LAST `B` PATTERN (A B+) SUBSET `U` = (A, B) DEFINE A AS v > 1, `B` AS v < 1)",
+				"SELECT `a b`, count(*) AS `c` FROM s GROUP BY `a b`, TumblingWindow('1s') HAVING `c` > 1 ORDER BY `c` DESC LIMIT 3",
+				"SELECT s.`x` AS y, m.`w` FROM s JOIN meta m ON s.`k` = m.`k` WHERE `x` > 1"})
+		}
+		var cuts []int
+		for i := 1; i < len(s); i++ {
+			if s[i] == ' ' || s[i] == '(' || s[i] == ',' {
+				cuts = append(cuts, i+1)
+			}
+		}
+		if len(cuts) > 0 {
+			s = s[:pick(r, cuts)]
+		}
+		return s + pick(r, []string{"`", "`", "'", "\"", "(", "[", "`x", "'x"}), "statement_cut_off_at_an_opening_quote"
 	case k >= 20:
 		return c11SemanticError(r), "well_formed_statement_with_semantic_error"
 	case k < 6:
